@@ -295,7 +295,10 @@ def shape_rules(ctx, rid, core, G, scope_fns):
                     continue
                 bad.append(why)
         n += 1
-        if bad:
+        if bad and unk:
+            # some output paths of this arm contain pieces the interpreter does not model: its reading of the other paths is not reliable either
+            ctx.inst(rid, "%s[%s]#shape" % (short, variant), None, "%d of %d output paths could not be matched, but other paths of the arm contain unmodelled pieces: not decided (%s)" % (len(bad), len(alts), sorted(set(bad))[:2]), loc)
+        elif bad:
             ctx.inst(rid, "%s[%s]#shape" % (short, variant), False, "%d of %d output paths do not follow the grammar's shape for %s: %s" % (len(bad), len(alts), variant, sorted(set(bad))[:3]), loc)
         else:
             ctx.inst(rid, "%s[%s]#shape" % (short, variant), None if unk else True, "%d output path(s) follow %s%s" % (len(alts), SKEL[variant], " (some paths contain opaque pieces)" if unk else ""), loc)
@@ -438,6 +441,8 @@ def scope_threading(ctx, rid, core):
                     callee = x[2] if x[2] in pf or x[2] in core.hir else next((k for k in pf if k.endswith("::" + x[2])), None)
                     if callee is None or not prints_expr(callee):
                         continue
+                    if "alloc::string::String" in (pf.get(callee) or core.hir.get(callee) or {}).get("inputs", []):
+                        continue  # decorates text the caller has already rendered (it looks at the child, it does not print it)
                     kids += 1
                     if not carries_scope(callee):
                         bad.add("%s via %s" % (".".join(map(str, x[1])), callee.replace(CORE, "")))
